@@ -1,7 +1,6 @@
 package main
 
 import (
-	"os"
 	"bytes"
 	"encoding/hex"
 	"fmt"
@@ -136,8 +135,13 @@ func (c *SilentCase) Judge(rs []Res, env *Env) Outcome {
 		if modelledOps[want] && got != want && got != "WAIT" {
 			return fail("wrong-instruction", fmt.Sprintf("decodes to %s", in))
 		}
-		if os.Getenv("VERIF_C07_NOMODEL") != "" {
-			fmt.Printf("NOMODEL m%d `%s` -> %s  %s\n", c.Mode, c.Stmt, hex.EncodeToString(x), in)
+		if c.Expect == "unknown" {
+			if in.Len != len(x) {
+				return fail("wrong-instruction", fmt.Sprintf("decodes to %s (%d bytes) but %d bytes were emitted", in, in.Len, len(x)))
+			}
+			if why := looseOperands(c, in); why != "" {
+				return fail("wrong-operands", fmt.Sprintf("%s: decodes to %s", why, in))
+			}
 		}
 	}
 	o.Status = Held
@@ -320,7 +324,7 @@ func init() {
 		cases := genC07(env, r, env.Tier == "thorough")
 		rep.Rule = "every mnemonic of the grammar's Opcode rule (read from the tree, pseudo-instructions aside) x operand lists of 0..3 operands over 17 operand kinds (r8 r16 r32 Sreg CRn small/large immediate, string, unsized/sized memory, defined label, defined EQU, undefined label, undefined label in brackets, undefined EQU expression, seg:off), both modes; data directives with undefined symbols; valid instances of the instruction model; " +
 			"each statement S is embedded between statements with known images and followed by `after: DW after`; a case is non-trivial when gosk ACCEPTS it silently (exit 0, no new diagnostic relative to the same program without S): then the bytes between the frame must be non-empty, the label after S must equal its true offset, " +
-			"S must not be an illegal form (wrong operand count, string operand) or refer to an undefined symbol, and the bytes must decode to S (exactly for modelled instances, by operation name otherwise); distinct = (mnemonic, operand shape, mode) cells"
+			"S must not be an illegal form (wrong operand count, string operand) or refer to an undefined symbol, and the bytes must decode to S (exactly for modelled instances; otherwise by operation name, with every written operand found among the decoded operands - registers by class and number, immediates/labels/EQUs by value modulo the field or operand width, branch targets by address, memory operands by address size, base and displacement - and no decoded register or memory operand that was not written); distinct = (mnemonic, operand shape, mode) cells"
 		if env.Tier == "thorough" {
 			rep.Exhaust = true
 		}
